@@ -61,7 +61,7 @@ class TaggedGate(
         See :class:`~bqskit.ir.gate.Gate` for more info.
         """
         if hasattr(self, 'utry'):
-            return np.array([])
+            return np.zeros((0, self.dim, self.dim), dtype=np.complex128)
 
         return self.gate.get_grad(params)
 
@@ -75,7 +75,9 @@ class TaggedGate(
         See :class:`~bqskit.ir.gate.Gate` for more info.
         """
         if hasattr(self, 'utry'):
-            return self.utry, np.array([])
+            return self.utry, np.zeros(
+                (0, self.dim, self.dim), dtype=np.complex128,
+            )
 
         return self.gate.get_unitary_and_grad(params)
 
